@@ -6,6 +6,7 @@ import (
 	"io"
 	"os"
 	"os/exec"
+	"path/filepath"
 	"testing"
 	"time"
 
@@ -408,6 +409,18 @@ func c02PPOracle(c c02PPCase) error {
 			}
 			statsFor("C02").class("pp_with_failing_stdout", 1)
 		}
+	}
+	// The same for the other output channel: a rendering that cannot be written to the -html
+	// file (its directory does not exist) while the stream holds a dump.
+	if len(c.S.Items) > 0 && !c.File && digestBytes(c.S.Bytes())%3 == 1 {
+		r, rerr := runPP(c.S.Bytes(), append(append([]string{}, c.Flags...), "-rebase=false", "-html", filepath.Join(os.Getenv("VERIF_WORK"), "no-such-dir", "out.html"))...)
+		if rerr != nil {
+			return rerr
+		}
+		if r.Code == 0 {
+			return fmt.Errorf("pp exited 0 although the rendering of %d dump(s) could not be written to the -html file (directory missing); stderr=%q", len(c.S.Items), quoteShort(r.Err))
+		}
+		statsFor("C02").class("pp_with_unwritable_html_file", 1)
 	}
 	return nil
 }
